@@ -21,7 +21,7 @@ import (
 
 var foPath = map[string]string{
 	"a": "/w/a", "b": "/w/b", "c": "/w/sub/c", "sub": "/w/sub", "dev": "/dev/null",
-	"ld": "/w/l/d/f", "td": "/w/t/d/g", // interacting directory chains: /w/l may be a link to /w/t
+	"ld": "/w/l/d/f", "td": "/w/t/d/g", // interacting directory chains: /w/l may be a (relative) link to /w/t
 	"target": "/w/target", "tdir": "/w/tdir", "nowhere": "/w/nowhere", "probe": "/probe/contfs",
 	"long": "/w/" + strings.Repeat("L", 250) + strings.Repeat("/"+strings.Repeat("M", 250), 11), // 3 KB, does not exist
 }
@@ -227,7 +227,7 @@ func (e *env) kindOf(p string) string {
 			return "symout"
 		case "/dev/null":
 			return "symdev"
-		case "/w/t":
+		case "t":
 			return "symt"
 		case "/w/nowhere":
 			return "dangling"
@@ -393,7 +393,9 @@ func (w *foWorker) run(c foCase) foOut {
 	case "file":
 		args = append(args, "reg:/w/l")
 	case "link":
-		args = append(args, "sym:/w/l:/w/t")
+		// relative target: the host looks through /proc/<init>/root, where an absolute link target
+		// would be resolved against the host's own root
+		args = append(args, "sym:/w/l:t")
 	}
 	if c.FS.Tt == "dir" {
 		args = append(args, "dir:/w/t")
